@@ -239,10 +239,11 @@ class PathAnalysis(flow.Analysis):
     fallible = True  # opaque calls may raise `Exception*`
     prune = True  # drop a branch whose complementary literal already holds
 
-    def __init__(self, fn_node: ast.AST, event_of=None, fallible_pred=None):
+    def __init__(self, fn_node: ast.AST, event_of=None, fallible_pred=None, stmt_event_of=None):
         super().__init__()
         self.fn = fn_node
         self.event_of = event_of
+        self.stmt_event_of = stmt_event_of
         self.fallible_pred = fallible_pred
         self.defs: Dict[str, Tuple[str, ast.AST]] = {}  # term -> (substituted defining text, value node)
         self.site: Dict[int, int] = {}
@@ -331,6 +332,15 @@ class PathAnalysis(flow.Analysis):
 
     # ------------------------------------------------------------------ hooks
     def simple(self, state: PState, stmt):
+        if self.stmt_event_of is not None and isinstance(stmt, (ast.Assign, ast.AugAssign, ast.AnnAssign, ast.Delete, ast.Expr, ast.Return, ast.Raise)):
+            ev = self.stmt_event_of(stmt, state, self)
+            if ev:
+                pre = state
+                for e in ([ev] if isinstance(ev, str) else ev):
+                    state = state.add_event(e)
+        return self._simple(state, stmt)
+
+    def _simple(self, state: PState, stmt):
         if isinstance(stmt, ast.Assign):
             state = self._events(state, stmt.value)
             for t in stmt.targets:
@@ -446,8 +456,8 @@ class PathAnalysis(flow.Analysis):
         return out
 
 
-def run_paths(fn_node, event_of=None, fallible_pred=None, cls=PathAnalysis, **attrs):
-    a = cls(fn_node, event_of=event_of, fallible_pred=fallible_pred)
+def run_paths(fn_node, event_of=None, fallible_pred=None, cls=PathAnalysis, stmt_event_of=None, **attrs):
+    a = cls(fn_node, event_of=event_of, fallible_pred=fallible_pred, stmt_event_of=stmt_event_of)
     for k, v in attrs.items():
         setattr(a, k, v)
     st = a.initial()
